@@ -10,7 +10,8 @@ import symsched
 from asphalt.core import Context, current_context, get_resources, start_background_task_factory  # noqa: E402
 
 OUTCOMES = ["returns after 1 checkpoint", "still running when the owner is left (3 checkpoints)", "raises an Exception",
-            "cancelled through the handle right after the spawn", "cancelled through the handle after 1 checkpoint"]
+            "cancelled through the handle right after the spawn", "cancelled through the handle after 1 checkpoint",
+            "returns at once (no checkpoint, no teardown callback of its own)"]
 SITES = ["owner context", "a child context of the owner", "another task running in an unrelated context"]
 HANDLERS = ["no exception handler", "handler returns True", "handler returns False"]
 
@@ -24,7 +25,7 @@ def params(tier):
     nt = 2
     ps = [P("ntask", 0, nt - 1), P("site", 0, 2), P("nested", 0, 1), P("handler", 0, 2), P("fstart", 0, 1)]
     for i in range(nt):
-        ps += [P(f"api{i}", 0, 1), P(f"out{i}", 0, 4)]
+        ps += [P(f"api{i}", 0, 1), P(f"out{i}", 0, 5)]
     for j in range(D):
         ps += [P(f"gap{j}", 0, L), P(f"arm{j}", 0, 3)]
     return ps
@@ -37,7 +38,7 @@ def fn(a, tier):
     nt = 1 + pick(a["ntask"], ntmax)
     site, nested = pick(a["site"], 3), pick(a["nested"], 2)
     apis = [pick(a[f"api{i}"], 2) for i in range(nt)]
-    outs = [pick(a[f"out{i}"], 5 if (i == 0 or tier != "quick") else 3) for i in range(nt)]
+    outs = [pick(a[f"out{i}"], 6 if (i == 0 or tier != "quick") else 3) for i in range(nt)]
     handler_kind = pick(a["handler"], 3) if 2 in outs else 0
     fstart = pick(a["fstart"], 2)  # 1: factory started through the owner's METHOD while another (nested, short-lived) context is current
     tape = DeviationTape([(a[f"gap{j}"], a[f"arm{j}"]) for j in range(D)], L)
@@ -57,6 +58,10 @@ def fn(a, tier):
             info[("parent", i)] = ctx.parent
             info[("sees", i)] = (dict(get_resources(RT[0])), dict(get_resources(RT[1])))
             log.append(("begin", i))
+            if outs[i] == 5:
+                log.append(("ctx_closed", i))  # nothing of its own to tear down
+                log.append(("end", i))
+                return
 
             async def own_teardown():
                 with anyio.CancelScope(shield=True):
@@ -65,7 +70,7 @@ def fn(a, tier):
 
             ctx.add_teardown_callback(own_teardown)
             try:
-                steps = {0: 1, 1: 3, 2: 1, 3: 2, 4: 3}[outs[i]]
+                steps = {0: 1, 1: 3, 2: 1, 3: 2, 4: 3, 5: 0}[outs[i]]
                 for _ in range(steps):
                     await anyio.sleep(0)
                 if outs[i] == 2:
@@ -225,7 +230,7 @@ def fn(a, tier):
         if ("begin", i) in pos and ("end", i) not in pos:
             return FAIL("task-never-ended", log, summary)
         saw_cancel = ("saw", i, "cancel") in pos
-        if outs[i] in (0, 1, 2) and saw_cancel:
+        if outs[i] in (0, 1, 2, 5) and saw_cancel:
             return FAIL(f"task-cancelled-although-not-requested:out={outs[i]}", log, summary)
         if outs[i] in (3, 4) and ("begin", i) in pos and info.get(("live_at_cancel", i)) and not saw_cancel:
             return FAIL(f"cancel-through-handle-lost:out={outs[i]}:api={apis[i]}", log, summary)
